@@ -441,6 +441,10 @@ def cells(prog: Prog, tier: str):
     """[(ctx name, {arg: format name})]"""
     out = []
     base = list(CELLS_QUICK)
+    lean = tier == 'quick' and (prog.fam == 'B' or prog.tag == 'M-set')
+    if lean:
+        # refinement / literal-set programs: the context and format variety matters less than the program variety
+        base = [CELLS_QUICK[i] for i in (0, 1, 2, 5, 6)]
     if tier != 'quick':
         base += CELLS_MORE
         if prog.fam in ('L', 'H', 'M') or prog.tag == 'A1':
@@ -451,7 +455,7 @@ def cells(prog: Prog, tier: str):
         c, fs, fl = CELL_ONE_ARG
         out.append((c, {a: ('int' if a == 'n' else fs) for a in prog.args}))
     if 'x' in prog.args and 'y' in prog.args:
-        mixed = CELLS_MIXED if (tier != 'quick' and prog.fam in ('L', 'H', 'M')) else CELLS_MIXED[:2]
+        mixed = CELLS_MIXED if (tier != 'quick' and prog.fam in ('L', 'H', 'M')) else CELLS_MIXED[1:2] if lean else CELLS_MIXED[:2]
         for c, fx_, fy_, fl in mixed:
             out.append((c, {a: ('int' if a == 'n' else fl if a == 'xs' else fx_ if a == 'x' else fy_) for a in prog.args}))
     return out
